@@ -31,7 +31,7 @@ def build(d):
         if nodes is None:
             return {"discard": state}
         spec = projgen.gen_project(d, nodes, state, pep_shaped=False, max_files=5, max_patterns=3, regimes=["lf", "lf", "crlf", "cr"],
-                                   allow_partial=True)
+                                   allow_partial=True, share_patterns=True)
         spec["legacy"] = False
         flags, date = projgen.gen_bump(d, nodes, state)
     return {"spec": spec, "flags": flags, "date": date, "commit": d.chance(1, 2), "tag": d.bool(), "fault_style": d.choice(["remove", "delimiter"])}
@@ -65,6 +65,7 @@ def faults_of(spec):
     for fi, f in enumerate(spec["files"]):
         for pi in sorted({v for segs in f["lines"] for k, v in segs if k == "o"}):
             fs.append({"kind": "nomatch", "file": fi, "pattern": pi})
+        fs.append({"kind": "emptied", "file": fi})  # zero bytes: none of its patterns can match
         if any(key == f["path"] for key, _idx in spec["entries"]):
             # a file that is covered by a glob entry only simply drops out of the glob when it is removed
             fs.append({"kind": "missing", "file": fi})
@@ -122,6 +123,9 @@ def check(case):
                 os.unlink(os.path.join(tmp, faulty_path))
             elif fault["kind"] == "nomatch":
                 faulty_path = spec["files"][fault["file"]]["path"]
+            elif fault["kind"] == "emptied":
+                faulty_path = spec["files"][fault["file"]]["path"]
+                open(os.path.join(tmp, faulty_path), "w").close()
             else:
                 sv = {"equal": old, "malformed": old + ".x y", "lower": "0" if legacy else old}[fault["how"]]
                 if fault["how"] == "lower" and not legacy:
@@ -179,7 +183,7 @@ PARTS = [
 
 MANIFEST = {
     "text": "Single-fault enumeration: for every generated project each (file, pattern) is made non-matching, each file is "
-            "removed and the new version is made unacceptable, one at a time; dry run then real run; all bytes of all files "
+            "removed, each file is emptied and the new version is made unacceptable, one at a time; dry run then real run; all bytes of all files "
             "and the fake-VCS argv log are compared with the snapshot.",
     "note": "Projects are sampled (Hypothesis); within a project the single-fault space is enumerated completely. Fake git "
             "only. Combinations of faults are not explored.",
